@@ -10,6 +10,7 @@ K4 len_selfies, when it is an affine form over character counts, is count('[') +
 K5 contiguity of the bracket scanner: every iteration yields selfies[left:right+1] starting at the scan position (a '.'
    exactly when the next character is '.'), and continues right after what it yielded -- so the concatenation of the
    yielded items is the scanned prefix
+K7 the decoder's derivation consumes the tokenizer's output for this call's own string (no stored token list)
 K6 get_alphabet_from_selfies traverses its (possibly one-shot) iterable exactly once, with a plain loop / comprehension
 Not decided: an implementation of len_selfies / split_selfies of another shape (a note is printed, no verdict), and the
 set equality of get_alphabet_from_selfies beyond "one traversal, built from the one tokenizer, dots removed".
@@ -46,7 +47,8 @@ def run(ctx, rep):
     well = RL.compile_regex(("cat", [("lit", "["), ("rep", ("set", frozenset(A - {"[", "]", "."})), 0, None), ("lit", "]")]))
     enc = symlang.enc_atom_tokens(ctx)
     ok, w = enc["dfa"].included_in(well)
-    tokf = ctx.fn("selfies.encoder._atom_to_selfies")
+    from rules.shared import atom_token_printer
+    tokf = atom_token_printer(ctx)
     rep.ob("K1", ok, tokf.node, tokf, construct="atom tokens", how="⊆ \\[[^\\[\\].]*\\]", nontrivial=True, key="atom-tokens",
            witness=None if ok else "encoder can print the malformed token %r" % w)
     # ring / branch / index tokens: finite sets from the decoder tables and templates (C10/L1 shows emit ⊆ tables)
@@ -87,13 +89,13 @@ def run(ctx, rep):
     for st in loop.body:
         if isinstance(st, (ast.If, ast.For, ast.While, ast.Try, ast.With)):
             break
-        if isinstance(st, ast.Assign) and isinstance(st.value, ast.Call) and unparse(st.value.func).endswith("_atom_to_selfies"):
+        if isinstance(st, ast.Assign) and isinstance(st.value, ast.Call) and unparse(st.value.func).split(".")[-1] == tokf.name:
             tokvars |= {t.id for t in st.targets if isinstance(t, ast.Name)}
         from rules.shared import emits_arg
 
         def is_atom_token(e):
             return (isinstance(e, ast.Name) and e.id in tokvars) or \
-                   (isinstance(e, ast.Call) and unparse(e.func).endswith("_atom_to_selfies"))
+                   (isinstance(e, ast.Call) and unparse(e.func).split(".")[-1] == tokf.name)
         for n in ast.walk(st):
             if isinstance(n, ast.Call) and emits_arg(ctx, frag, n, is_atom_token):
                 ok = True
@@ -159,6 +161,10 @@ def run(ctx, rep):
            key="one-traversal/" + ("ok" if not probs else "bad"))
     check_len(ctx, rep, lens)
     check_scanner(ctx, rep, split)
+    # K7 "the decoder consumes exactly these tokens": the derivation reads enumerate(G(fragment)) built from the tokenizer in
+    # this very call -- not a stored token list that another call (another flag, another string) produced (C13/N1a, shared)
+    from rules.C13 import check_token_source
+    check_token_source(ctx, rep, "K7")
     rep.floor("K1", 4)
     rep.floor("K2", 6)
 
@@ -191,7 +197,7 @@ def check_scanner(ctx, rep, split):
     """K5: contiguity of the bracket scanner: each iteration yields selfies[left:right+1] starting at the scan position, yields a
     '.' exactly when the next character is '.', and continues right after what it yielded"""
     from sa.sym import Engine, Hooks, Unk, Num, Con, vkey
-    from sa.lin import Lin, eq
+    from sa.lin import Lin, eq, le as le_
 
     class H(Hooks):
         def __init__(self):
@@ -232,6 +238,21 @@ def check_scanner(ctx, rep, split):
                 probs.append("first yield of an iteration is not a slice selfies[a:b]")
             else:
                 lo, hi = org[4][0].lin, org[4][1].lin
+                # the closing bracket is the FIRST ']' behind the opening one: when the end is (a find result) + 1, the search
+                # must look for ']' in the scanned string and start no later than the character after the scan position
+                # (a later start skips the ']' of an empty symbol '[]' and swallows the next symbol)
+                hterms = [t for t in (hi - Lin.const(1)).terms()]
+                if len(hterms) == 1 and (hi - Lin.const(1) - Lin.var(hterms[0])).is_const() and (hi - Lin.const(1) - Lin.var(hterms[0])).k == 0:
+                    fo_ = eng.origin.get(hterms[0])
+                    if fo_ and fo_[0] in ("find", "index"):
+                        fargs = fo_[2]
+                        if vkey(fo_[1]) != skey or not fargs or not (isinstance(fargs[0], Con) and fargs[0].value == "]"):
+                            probs.append("the end of the yielded symbol is not found by searching ']' in the scanned string")
+                        elif len(fargs) >= 2:
+                            st_ = fargs[1]
+                            if not (isinstance(st_, Num) and b.entails(le_(st_.lin, lo + Lin.const(1)))):
+                                probs.append("the search for ']' starts later than the character after the opening bracket: "
+                                             "the ']' of an empty symbol is skipped and the next symbol is swallowed")
                 pos = [nm for nm, t in syms.items() if (lo - Lin.var(t)).is_const() and (lo - Lin.var(t)).k == 0]
                 if not pos:
                     probs.append("yielded symbol does not start at the scan position")
